@@ -266,6 +266,18 @@ pub fn run(cfg: &Cfg, rep: &mut Rep) {
                 let q = r.range_i128(-(MAX_NS / s.abs()).min(1 << 40), (MAX_NS / s.abs()).min(1 << 40));
                 q * s.abs() + r.range_i64(-2, 2) as i128
             }
+            3 if r.bool() => {
+                // a quotient d / |s| beyond 2^31, 2^32, 2^63, 2^64 (what a narrower integer or a double would keep of it)
+                let qmax = MAX_NS / s.abs();
+                let base = *r.pick(&[1i128 << 31, 1 << 32, 1 << 53, 1 << 63, 1 << 64, 1 << 70]);
+                if base + 1000 < qmax {
+                    rep.class("quotient/beyond-a-machine-width");
+                    let q = base + r.range_i64(-3, 1000) as i128;
+                    (if r.bool() { q } else { -q }) * s.abs() + r.range_i128(0, s.abs() - 1)
+                } else {
+                    gen::rand_count_within(&mut r, s.abs())
+                }
+            }
             3 => gen::rand_count_within(&mut r, s.abs()),
             4 => gen::rand_count_within(&mut r, 101 * NPC),
             _ => gen::rand_count(&mut r, &lat),
